@@ -26,6 +26,9 @@ def cfgs_scalar_sets(tier, inc):
         out.append(C.Config(m, cxx="g++", std="c++11", opt="-O2"))
         out.append(C.Config(m, cxx="clang++", std="c++17", opt="-O2"))
         out.append(C.Config(m, cxx="g++", std="c++11", opt="-O1"))
+        out.append(C.Config(m, cxx="g++", std="c++20", opt="-O2"))
+    for m in (["SSE2"], ["SSE2", "X86"], ["AVX2", "LZCNT"], ["SSE4_1", "BMI"]):
+        out.append(C.Config(m, cxx="clang++", std="c++20", opt="-O1"))
     seen, res = set(), []
     for c in out:
         if c.name not in seen:
@@ -95,9 +98,9 @@ PROPS = {
     "C05": {"id": "C05", "source": "c05.cpp", "files": INT_VEC_FILES, "min_configs": {"quick": 8, "thorough": 30}, "scale": {"quick": 300, "thorough": 300}},
     "C03": {"id": "C03", "source": "c03.cpp", "files": INT_VEC_FILES + FLT_VEC_FILES, "min_configs": {"quick": 8, "thorough": 30}, "optional_classes": ["noncanonical_representation_seen"],
             "max_success": {"quick": 1500, "thorough": 20000}},
-    "C08": {"id": "C08", "fuzz": True, "source": "c08.cpp", "files": INT_VEC_FILES + FLT_VEC_FILES, "min_configs": {"quick": 8, "thorough": 30}, "configs": cfgs_with_O0,
+    "C08": {"id": "C08", "fuzz": True, "full_O0": True, "source": "c08.cpp", "files": INT_VEC_FILES + FLT_VEC_FILES, "min_configs": {"quick": 8, "thorough": 30}, "configs": cfgs_with_O0,
             "optional_classes": ["range_ends_at_guard_page", "range_starts_after_guard_page", "wild_index_in_inactive_lane", "n_zero_pointer_into_guard_page"]},
-    "C09": {"id": "C09", "source": "c08.cpp", "cxxflags": ["-DVP_PROP_C09"], "files": INT_VEC_FILES + FLT_VEC_FILES, "min_configs": {"quick": 8, "thorough": 30}, "configs": cfgs_with_O0,
+    "C09": {"id": "C09", "full_O0": True, "source": "c08.cpp", "cxxflags": ["-DVP_PROP_C09"], "files": INT_VEC_FILES + FLT_VEC_FILES, "min_configs": {"quick": 8, "thorough": 30}, "configs": cfgs_with_O0,
             "optional_classes": ["unaligned_address", "negative_index", "ordinary"]},
     "C10": {"id": "C10", "source": "c10.cpp", "files": FLT_VEC_FILES + SCALAR_FILES[8:], "min_configs": {"quick": 8, "thorough": 30},
             "cxxflags": ["-frounding-math", "-ffp-contract=off"], "ref_sources": FPREF, "max_success": {"quick": 1000, "thorough": 10000}},
@@ -116,7 +119,7 @@ PROPS = {
     "C17": {"id": "C17", "source": "c17.cpp", "files": INT_VEC_FILES + [VEC + "Vectors.hpp", "include/avel/Misc.hpp"], "min_configs": {"quick": 8, "thorough": 30}},
     "C18": {"id": "C18", "fuzz": lambda inc: [C.Config([], std="c++11"), C.Config([], std="c++17"), C.Config(["SSE2"])], "fuzz_runs": 50000, "source": "c18.cpp", "files": ["include/avel/Aligned_allocator.hpp"], "min_configs": {"quick": 6, "thorough": 10}, "configs": cfgs_alloc, "ub_is_violation": True,
             "max_success": {"quick": 500, "thorough": 20000}},
-    "C20": {"id": "C20", "source": "c20.cpp", "files": ["include/avel/Cache.hpp"], "min_configs": {"quick": 6, "thorough": 12}, "configs": cfgs_prefetch, "max_success": {"quick": 3000, "thorough": 100000},
+    "C20": {"id": "C20", "full_O0": True, "source": "c20.cpp", "files": ["include/avel/Cache.hpp"], "min_configs": {"quick": 6, "thorough": 12}, "configs": cfgs_prefetch, "max_success": {"quick": 3000, "thorough": 100000},
             "optional_classes": []},
     "C19": {"id": "C19", "custom": _c19_run, "custom_replay": _c19_replay, "files": []},
     "C02": {"id": "C02", "source": "c02.cpp", "files": INT_VEC_FILES + FLT_VEC_FILES, "min_configs": {"quick": 8, "thorough": 30}, "digest_binding": True},
